@@ -2,6 +2,7 @@ package types
 
 import (
 	"bytes"
+	"math"
 	"time"
 
 	errorsmod "cosmossdk.io/errors"
@@ -27,6 +28,20 @@ const (
 	TypeMsgConvertIntoVestingAccount    = "convert_into_vesting_account"
 	TypeMsgUpdateVestingSchedule        = "update_vesting_schedule"
 )
+
+// validateScheduleEnd checks that no event of the schedule lies beyond the
+// largest representable time: the running sum of the period lengths must not
+// wrap around.
+func validateScheduleEnd(startTime time.Time, periods sdkvesting.Periods) error {
+	end := startTime.Unix()
+	for i, period := range periods {
+		if end > 0 && period.Length > math.MaxInt64-end {
+			return errorsmod.Wrapf(errortypes.ErrInvalidRequest, "period %d ends beyond the largest representable time", i)
+		}
+		end += period.Length
+	}
+	return nil
+}
 
 // NewMsgCreateClawbackVestingAccount creates new instance of MsgCreateClawbackVestingAccount
 func NewMsgCreateClawbackVestingAccount(
@@ -87,6 +102,13 @@ func (msg MsgCreateClawbackVestingAccount) ValidateBasic() error {
 			return errortypes.ErrInvalidCoins.Wrap(period.Amount.String())
 		}
 		vestingCoins = vestingCoins.Add(period.Amount...)
+	}
+
+	if err := validateScheduleEnd(msg.StartTime, msg.LockupPeriods); err != nil {
+		return err
+	}
+	if err := validateScheduleEnd(msg.StartTime, msg.VestingPeriods); err != nil {
+		return err
 	}
 
 	// If neither schedule is present, the message is invalid.
@@ -318,6 +340,13 @@ func (msg MsgConvertIntoVestingAccount) ValidateBasic() error {
 			return errortypes.ErrInvalidCoins.Wrap(period.Amount.String())
 		}
 		vestingCoins = vestingCoins.Add(period.Amount...)
+	}
+
+	if err := validateScheduleEnd(msg.StartTime, msg.LockupPeriods); err != nil {
+		return err
+	}
+	if err := validateScheduleEnd(msg.StartTime, msg.VestingPeriods); err != nil {
+		return err
 	}
 
 	// If neither schedule is present, the message is invalid.
